@@ -93,6 +93,8 @@ pub struct Connection {
     pub deferred_frames: Vec<RespFrame>,
     /// The malformed frame that ended the read in which a command blocked: answered after the deferred frames
     pub deferred_protocol_error: Option<String>,
+    /// Input was taken off the socket while the client was blocked (`peer_closed`) and the parser has not looked at it yet
+    pub unparsed_input: bool,
 }
 
 impl Connection {
@@ -122,6 +124,7 @@ impl Connection {
             name: None,
             deferred_frames: Vec::new(),
             deferred_protocol_error: None,
+            unparsed_input: false,
         })
     }
     
@@ -231,15 +234,29 @@ impl Connection {
         Ok(())
     }
     
-    /// Has the peer closed its end of the socket? Non-blocking: looks at the socket without consuming
-    /// anything (unread bytes count as "still there")
-    pub fn peer_closed(&self) -> bool {
-        let mut probe = [0u8; 1];
-        match self.stream.peek(&mut probe) {
-            Ok(0) => true,
-            Ok(_) => false,
-            Err(e) if e.kind() == ErrorKind::WouldBlock || e.kind() == ErrorKind::Interrupted => false,
-            Err(_) => true,
+    /// Has the peer closed its end of the socket? Non-blocking. For a connection that is not being read (a
+    /// blocked client): end-of-file is only seen behind what the peer sent before closing - a peek answers
+    /// "still there" as long as one unread byte is in front of it - so that input is taken off the socket
+    /// into the parse buffer. Nothing is parsed or executed here: it waits there, like the frames kept back
+    /// behind a blocking pop, until process_connection reads the connection again (`unparsed_input`). A peer
+    /// that piles up more than MAX_BLOCKED_INPUT this way is treated as gone
+    pub fn peer_closed(&mut self) -> bool {
+        const MAX_BLOCKED_INPUT: usize = 64 * 1024 * 1024;
+        let mut buf = [0u8; 8192];
+        loop {
+            match self.stream.read(&mut buf) {
+                Ok(0) => return true,
+                Ok(n) => {
+                    self.parser.feed(&buf[..n]);
+                    self.unparsed_input = true;
+                    if self.parser.buffered_len() > MAX_BLOCKED_INPUT {
+                        return true;
+                    }
+                }
+                Err(e) if e.kind() == ErrorKind::Interrupted => {}
+                Err(e) if e.kind() == ErrorKind::WouldBlock => return false,
+                Err(_) => return true,
+            }
         }
     }
     
